@@ -93,7 +93,13 @@ def regionCheck (c : Ctx) (p0 f0 n fl : Nat) (feature : String) : Option Fails :
       some (chk (b == want) "region-maps-exact-pages" feature ++
         chk ((List.range n).all fun i => c.post.flushes.contains (pageVA (p0 + i))) "flush-changed-page" feature)
     else if c.post.code = 4 then
-      some (chk (a.filter (fun x => !inRun x.1) == b.filter (fun x => !inRun x.1)) "fail-no-other-change" feature)
+      -- the allocator failed at some page: the address space is the old one with the requests before
+      -- that page applied, and nothing else - in particular a page mapped earlier (inside or outside
+      -- the run) and never unmapped still translates
+      let prefixOK := (List.range (n + 1)).any fun k =>
+        b == (List.range k).foldl (fun l i => lset l (p36 (p0 + i)) (mkEnt (f0 + i) fl)) a
+      some (chk (a.filter (fun x => !inRun x.1) == b.filter (fun x => !inRun x.1)) "fail-no-other-change" feature ++
+        chk prefixOK "fail-keeps-established-prefix" feature)
     else some (chk (a == b) "fail-no-translation-change" feature)
   | _, _ => none
 
